@@ -139,7 +139,7 @@ func (s *rrSegFetcher) doCheck() {
 	// outgoing pipeline: queueing the Interest there (ExpressR) would block this
 	// goroutine for good once the pipeline is full. Express it right here instead.
 	args.callback = func(args ndn.ExpressCallbackArgs) {
-		s.client.seginpipe <- rrSegHandleDataArgs{state: state, args: args}
+		handOver(s.client.seginpipe, rrSegHandleDataArgs{state: state, args: args})
 	}
 	s.client.expressRImpl(args)
 }
